@@ -148,7 +148,9 @@ func (db *DB) getViews(ctx context.Context, opts client.CollectionFetchOptions) 
 func (db *DB) buildViewCache(ctx context.Context, col client.CollectionDefinition) (err error) {
 	txn := datastore.CtxMustGetTxn(ctx)
 
-	p := planner.New(ctx, identity.FromContext(ctx), db.documentACP, db)
+	// The cache is served to every requester without an access check, so it must only ever hold what
+	// a requester without identity may read, whoever asks for the refresh.
+	p := planner.New(ctx, identity.None, db.documentACP, db)
 
 	// temporarily disable the cache in order to query without using it
 	col.Version.IsMaterialized = false
